@@ -377,6 +377,122 @@ func GenJNested(t *rapid.T) J {
 	return outer
 }
 
+// ---- shared (DAG-shaped) data ----------------------------------------------------------------------
+
+// Shared describes a value in which the same array/object instance is reachable along several paths:
+// Defs[i] is a container that may refer to Defs[k], k < i, through {K:"ref",V:"k"} nodes (no cycles);
+// Root refers to any of them.
+type Shared struct {
+	Defs []J `json:"defs"`
+	Root J   `json:"root"`
+}
+
+// Expand gives the tree-shaped equivalent: every reference replaced by a copy of what it refers to.
+func (s Shared) Expand() J {
+	var exp func(j J) J
+	exp = func(j J) J {
+		if j.K == "ref" {
+			k, _ := strconv.Atoi(j.V)
+			return exp(s.Defs[k])
+		}
+		out := J{K: j.K, V: j.V, Keys: j.Keys}
+		for _, e := range j.E {
+			out.E = append(out.E, exp(e))
+		}
+		return out
+	}
+	return exp(s.Root)
+}
+
+// RefCounts gives, per definition, how many reference nodes point at it (in Root and in later Defs).
+func (s Shared) RefCounts() []int {
+	n := make([]int, len(s.Defs))
+	var walk func(j J)
+	walk = func(j J) {
+		if j.K == "ref" {
+			k, _ := strconv.Atoi(j.V)
+			n[k]++
+		}
+		for _, e := range j.E {
+			walk(e)
+		}
+	}
+	walk(s.Root)
+	for _, d := range s.Defs {
+		walk(d)
+	}
+	return n
+}
+
+// injectRefs replaces / adds elements of the containers of j by references to Defs[0..max).
+func injectRefs(t *rapid.T, j *J, max int) {
+	if max <= 0 || (j.K != "arr" && j.K != "obj") {
+		return
+	}
+	ref := func() J { return J{K: "ref", V: strconv.Itoa(rapid.IntRange(0, max-1).Draw(t, "refidx"))} }
+	for i := range j.E {
+		switch rapid.IntRange(0, 3).Draw(t, "inject") {
+		case 0:
+			j.E[i] = ref()
+		default:
+			injectRefs(t, &j.E[i], max)
+		}
+	}
+	if rapid.IntRange(0, 2).Draw(t, "append") == 0 {
+		if j.K == "arr" {
+			j.E = append(j.E, ref())
+		} else {
+			key := "ref" + strconv.Itoa(len(j.E))
+			j.Keys = append(j.Keys, key)
+			j.E = append(j.E, ref())
+		}
+	}
+}
+
+// GenShared draws DAG-shaped data: 1-3 shared containers (later ones may contain earlier ones) and a
+// root in which at least one of them occurs twice - as sibling properties, array slots, or at
+// different depths.
+func GenShared(t *rapid.T) Shared {
+	var s Shared
+	n := rapid.IntRange(1, 3).Draw(t, "ndefs")
+	for i := 0; i < n; i++ {
+		d := genJ(t, 2, false, false, "container")
+		injectRefs(t, &d, i)
+		s.Defs = append(s.Defs, d)
+	}
+	switch rapid.IntRange(0, 4).Draw(t, "rootshape") {
+	case 0: // sibling properties
+		s.Root = J{K: "obj", Keys: []string{"first", "second"}, E: []J{{K: "ref", V: "0"}, {K: "ref", V: "0"}}}
+	case 1: // array slots and one level down
+		s.Root = J{K: "arr", E: []J{{K: "ref", V: "0"}, {K: "ref", V: "0"}, {K: "arr", E: []J{{K: "ref", V: "0"}}}}}
+	case 2: // outer object and inner array of objects
+		last := strconv.Itoa(n - 1)
+		s.Root = J{K: "obj", Keys: []string{"defaults", "items"}, E: []J{{K: "ref", V: last}, {K: "arr", E: []J{
+			{K: "obj", Keys: []string{"id", "cfg"}, E: []J{{K: "int", V: "1"}, {K: "ref", V: last}}},
+			{K: "obj", Keys: []string{"id", "cfg"}, E: []J{{K: "int", V: "2"}, {K: "ref", V: last}}}}}}}
+	default:
+		s.Root = genJ(t, 3, false, false, "container")
+		injectRefs(t, &s.Root, n)
+	}
+	// make sure some definition is reached at least twice
+	twice := false
+	for _, c := range s.RefCounts() {
+		if c >= 2 {
+			twice = true
+		}
+	}
+	if !twice {
+		k := strconv.Itoa(rapid.IntRange(0, n-1).Draw(t, "forced"))
+		if s.Root.K == "arr" {
+			s.Root.E = append(s.Root.E, J{K: "ref", V: k}, J{K: "ref", V: k})
+		} else {
+			s.Root.Keys = append(s.Root.Keys, "again1", "again2")
+			s.Root.E = append(s.Root.E, J{K: "ref", V: k}, J{K: "ref", V: k})
+		}
+	}
+	return s
+}
+
 func jNum(j J) float64 {
 	if j.K == "int" {
 		n, _ := strconv.ParseInt(j.V, 10, 64)
@@ -430,8 +546,14 @@ func (j J) Depth() int {
 }
 
 // Literal renders the tree as an ES5 expression (array/object literals; holes as elisions).
-func (j J) Literal() string {
+func (j J) Literal() string { return j.LiteralRefs("s%s") }
+
+// LiteralRefs is Literal for trees with "ref" nodes (K "ref", V = index of a shared container):
+// a reference is written as refFmt applied to the index ("s%s", "get(%s)", "S[%s]").
+func (j J) LiteralRefs(refFmt string) string {
 	switch j.K {
+	case "ref":
+		return fmt.Sprintf(refFmt, j.V)
 	case "null":
 		return "null"
 	case "undef":
@@ -452,7 +574,7 @@ func (j J) Literal() string {
 	case "arr":
 		parts := make([]string, len(j.E))
 		for i, e := range j.E {
-			parts[i] = e.Literal()
+			parts[i] = e.LiteralRefs(refFmt)
 		}
 		s := strings.Join(parts, ",")
 		if n := len(j.E); n > 0 && j.E[n-1].K == "hole" {
@@ -462,7 +584,7 @@ func (j J) Literal() string {
 	}
 	parts := make([]string, len(j.E))
 	for i, e := range j.E {
-		parts[i] = JSStr(j.Keys[i]) + ":" + e.Literal()
+		parts[i] = JSStr(j.Keys[i]) + ":" + e.LiteralRefs(refFmt)
 	}
 	return "({" + strings.Join(parts, ",") + "})"
 }
